@@ -119,6 +119,11 @@ type Options struct {
 	// continue. Delay bounding explores a ball around the default schedule;
 	// running a program under both defaults covers two quite different balls.
 	Reverse bool
+	// UnlockPoints adds a scheduling point right AFTER every Unlock/RUnlock.
+	// Releases are left-movers, so for race-free code this adds nothing; it
+	// matters for code that touches shared state after releasing a lock (a
+	// narrowed critical section), where the window opens at the release.
+	UnlockPoints bool
 	// StartNanos is the initial reading of the virtual clock.
 	StartNanos int64
 }
@@ -167,6 +172,10 @@ type sched struct {
 
 // S is the scheduler of the execution in progress (nil outside executions).
 var cur *sched
+
+// DefaultUnlockPoints turns Options.UnlockPoints on for every execution
+// (set from the -unlockpoints flag of the harness binaries).
+var DefaultUnlockPoints bool
 
 // RaceMode reports whether the binary was built with -race.
 var RaceMode = raceEnabled
@@ -241,6 +250,9 @@ func objectID(p unsafe.Pointer) int32 {
 func Run(ch Chooser, opt Options, main func()) *Result {
 	if cur != nil && !cur.over {
 		panic("vrt: nested Run")
+	}
+	if DefaultUnlockPoints {
+		opt.UnlockPoints = true
 	}
 	s := &sched{ch: ch, opt: opt, done: make(chan struct{}, 1)}
 	s.maxSteps = opt.MaxSteps
@@ -789,4 +801,22 @@ var stamp int64
 func Stamp() int64 {
 	stamp++
 	return stamp
+}
+
+// afterUnlock is called by the lock shims after the real release.
+//
+//go:norace
+func afterUnlock(obj unsafe.Pointer) {
+	s := cur
+	if s == nil || s.over || !s.opt.UnlockPoints {
+		return
+	}
+	t := s.cur
+	if t == nil || t.rdv {
+		return
+	}
+	t.op = opYield
+	t.obj = obj
+	t.objID = objectID(obj)
+	s.point(t)
 }
